@@ -287,6 +287,34 @@ def body_spelling(ctx: H.BaseCtx):
                 if not isinstance(r, numpoly.ndpoly):
                     ctx.fail("spelling", "%s (%s) returned %s" % (label, sp, type(r).__name__))
                 ctx.expect_model(r, exp, "%s via %s" % (label, sp))
+        if not ctx.symbolic:
+            # native only: every *carrier type* a number or array-like partner can arrive in (the protocol methods see these types)
+            class _ArrayLike:
+                def __array__(self, dtype=None, copy=None):
+                    return numpy.asarray([2, 3] if a.shape else 2, dtype=dtype)
+
+            seq = [1, 2] if a.shape and a.shape[-1] == 2 else None
+            partners = [("bool", True), ("numpy.bool_", numpy.True_), ("numpy.int8", numpy.int8(2)), ("numpy.uint16", numpy.uint16(2)), ("numpy.float32", numpy.float32(2)),
+                        ("numpy.float64", numpy.float64(2)), ("0-d array", numpy.array(2)), ("0-d bool array", numpy.array(True)), ("object with __array__", _ArrayLike())]
+            if seq:
+                partners += [("list", list(seq)), ("tuple", tuple(seq)), ("range", range(1, 3)), ("bool array", numpy.array([True, False]))]
+            fns = [("add", operator.add), ("subtract", operator.sub), ("multiply", operator.mul), ("equal", operator.eq), ("less", operator.lt), ("maximum", None), ("logical_and", None)]
+            for pname, k in partners:
+                for fname, op_ in fns:
+                    try:
+                        ref = getattr(numpoly, fname)(a, k)
+                    except Exception:
+                        continue  # what numpoly itself refuses is not a spelling question
+                    spell = [("numpy.%s(p, %s)" % (fname, pname), lambda: getattr(numpy, fname)(a, k))]
+                    if op_ is not None:
+                        spell.append(("operator %s with %s" % (fname, pname), lambda: op_(a, k)))
+                    for label, f in spell:
+                        try:
+                            r2 = f()
+                        except Exception as e:
+                            ctx.fail("spelling", "%s raises %s: %s while numpoly.%s returns" % (label, type(e).__name__, str(e)[:60], fname))
+                            continue
+                        _same(ctx, ref, r2, label)
         return
     # binary operators / comparisons: operator vs numpy.f vs numpoly.f
     a, b = ops[0], ops[1]
